@@ -26,8 +26,16 @@ SCALAR_COLS = ["valid", "start_date", "end_date", "getmonth", "dayofmonth", "day
 
 
 # ====================================================================================================== X: macros
-def choose_shifts(ctx) -> Dict[Tuple[int, str], List[int]]:
-    keys = [(y, i) for y in YEARS for i in P.INDS]
+def tier_years(ctx) -> List[int]:
+    """thorough: every year 1900-2100; quick: 30 sampled years + the two ends, a 400-multiple, 53-week and leap years and their successors"""
+    if ctx.tier == "thorough":
+        return YEARS
+    fixed = [y for y in (1900, 2000, 2015, 2016, 2020, 2021, 2100) if y in YEARS]
+    return sorted(set(ctx.rng.sample(YEARS, min(30, len(YEARS))) + fixed))
+
+
+def choose_shifts(ctx, years) -> Dict[Tuple[int, str], List[int]]:
+    keys = [(y, i) for y in years for i in P.INDS]
     if ctx.tier == "thorough":
         return {k: list(range(-60, 61)) for k in keys}
     return {k: sorted(set([-60, -1, 1, 60] + [ctx.rng.randint(-60, 60) for _ in range(8)])) for k in keys}
@@ -41,8 +49,10 @@ def confirm_macro_shift(y, ind, num, n) -> str:
 
 def x_periods(ctx) -> None:
     t0 = time.time()
-    P.load_periods(YEARS)
-    shifts = choose_shifts(ctx)
+    years = tier_years(ctx)
+    ctx.cov["x_years"] = len(years)
+    P.load_periods(years)
+    shifts = choose_shifts(ctx, years)
     sc = P.sql_scalar_rows()
     sh = P.sql_shift_rows(shifts)
     nper = P.conn().execute("SELECT COUNT(*), SUM(CAST(valid AS INTEGER)) FROM periods").fetchone()
@@ -57,7 +67,6 @@ def x_periods(ctx) -> None:
     bad_scalar, bad_shift, bad_count = [], [], []
     n_eval = 0
     next_diffs: List[Tuple[Tuple[int, str], int]] = []
-    shift_diffs: List[Tuple[Tuple[int, str], int]] = []
     for k in keys:
         v = fp[k]
         flat = [x for r in sc[k] for x in r]
@@ -68,10 +77,7 @@ def x_periods(ctx) -> None:
             bad_scalar.append(k)
         if v[2] != P.fpz(sh[k].reshape(-1)):
             bad_shift.append(k)
-        rest = v[3:]
-        cut = rest.index(-1)
-        next_diffs += [(k, x) for x in rest[:cut]]
-        shift_diffs += [(k, x) for x in rest[cut + 1:]]
+        next_diffs += [(k, x) for x in v[3:]]
     ctx.count(None, n_eval)
     for k in keys:
         ctx.count(("x", k))
@@ -101,38 +107,17 @@ def x_periods(ctx) -> None:
                                   {"kind": "macro_scalar", "year": y, "ind": i, "num": num, "column": col, "expected": d[2], "observed": d[3]})
                 else:
                     n = shifts[k][d[1]]
-                    spec = common.coq_eval(P.HEADER, [f"(enc_p (shift (mkP {y} {P.COQ_IND[i]} {num}) {common.coq_z(n)}))"], "c08loc2")[0]
-                    if spec != d[3]:
-                        ctx.violation(f"timeshift:{i}:unpredicted", f"vtl_tp_shift({D.canon((y, i, num))}, {n}) gives year*1000+number = {d[3]}, "
-                                      f"the calendar gives {spec} (and the transcribed macro {d[2]})",
-                                      {"kind": "macro_shift", "year": y, "ind": i, "num": num, "n": n,
-                                       "expected": D.canon((spec // 1000, i, spec % 1000)), "observed": d[3]})
-        ctx.oblige(f"X: {name}: Gallina *_impl = real SQL macro on every period of every indicator {YEARS[0]}-{YEARS[-1]} "
+                    ctx.violation(f"timeshift:{i}:differs-from-calendar", f"vtl_tp_shift({D.canon((y, i, num))}, {n}) gives year*1000+number = {d[3]}, "
+                                  f"the calendar gives {d[2]} (C08_macro_shift_ok: the transcribed macro is the calendar shift)",
+                                  {"kind": "macro_shift", "year": y, "ind": i, "num": num, "n": n,
+                                   "expected": D.canon((d[2] // 1000, i, d[2] % 1000)), "observed": d[3]})
+        ctx.oblige(f"X: {name}: Gallina *_impl = real SQL macro on every period of every indicator of {len(years)} years of {YEARS[0]}-{YEARS[-1]} "
                    f"({len(keys)} shards, fingerprint + pointwise localisation)", not bad, f"{len(bad)} shards differ: {detail}")
     ctx.cov["x_periods"] = int(nper[0])
     ctx.cov["x_shift_pairs"] = int(sum(v.size for v in sh.values()))
     ctx.cov["x_scalar_values"] = int(sum(len(r) for v in sc.values() for r in v))
     # ---- where the (tied) macro leaves the calendar: confirm on the real engine, report
-    ctx.cov["macro_shift_vs_calendar_disagreements"] = len(shift_diffs)
     ctx.cov["macro_next_vs_calendar_disagreements"] = len(next_diffs)
-    by_ind: Dict[str, List] = {}
-    for (y, i), x in shift_diffs:
-        head, spec = divmod(x, 10 ** 7)
-        num, n = divmod(head, 1000)
-        by_ind.setdefault(i, []).append((y, num, n - 500, spec))
-    for i, lst in sorted(by_ind.items()):
-        lst.sort(key=lambda t: (abs(t[2]), t[0]))
-        y, num, n, spec = lst[0]
-        got = confirm_macro_shift(y, i, num, n)
-        exp = D.canon((spec // 1000, i, spec % 1000))
-        if got != exp:
-            key = {"W": "timeshift:W:crossing-53-week-year", "D": "timeshift:D:crossing-leap-year"}.get(i, f"timeshift:{i}:unexpected")
-            ctx.violation(key, f"vtl_tp_shift({D.canon((y, i, num))}, {n}) = {got}, the calendar gives {exp} "
-                               f"({len(lst)} of the evaluated (period, shift) pairs of indicator {i} are wrong: vtl_period_limit uses "
-                               f"{'52 weeks' if i == 'W' else '365 days'} for every year)",
-                          {"kind": "macro_shift", "year": y, "ind": i, "num": num, "n": n, "expected": exp, "observed": got})
-        else:
-            ctx.oblige(f"X: model/engine agree on disagreement witness {i}", False, f"model predicted a wrong shift at {(y, i, num, n)} but engine is right")
     by_ind = {}
     for (y, i), x in next_diffs:
         num, spec = divmod(x, 10 ** 7)
@@ -146,24 +131,25 @@ def x_periods(ctx) -> None:
         if got != exp:
             key = {"W": "fill_time_series:W:range-contains-week-53", "D": "fill_time_series:D:range-contains-day-366"}.get(i, f"fill_time_series:{i}:unexpected")
             ctx.violation(key, f"the step of fill_time_series (_TP_NEXT_PERIOD) after {D.canon((y, i, num))} is {got}, the calendar gives {exp}: "
-                               f"{'week 53' if i == 'W' else 'day 366'} is never generated ({len(lst)} valid periods affected in 1900-2100)",
+                               f"{'week 53' if i == 'W' else 'day 366'} is never generated ({len(lst)} valid periods affected in the {len(years)} years evaluated)",
                           {"kind": "macro_next", "year": y, "ind": i, "num": num, "expected": exp, "observed": got})
 
 
 def x_calendar(ctx) -> None:
     t0 = time.time()
     nshift = 4 if ctx.tier == "thorough" else 1
+    years = tier_years(ctx)
     shifts = {y: sorted(set([ctx.rng.choice([-25, -13, -12, -1, 1, 11, 12, 14, 24, 37])] +
-                            [ctx.rng.randint(-60, 60) for _ in range(nshift - 1)])) for y in YEARS}
+                            [ctx.rng.randint(-60, 60) for _ in range(nshift - 1)])) for y in years}
     # units of vtl_dateadd: thorough all six; quick one of D/W and one of M/Q/S/A per year
-    units = {y: (P.INDS if ctx.tier == "thorough" else ctx.rng.choice("DW") + ctx.rng.choice("MQSA")) for y in YEARS}
-    year_rows, cal = P.sql_calendar_rows(YEARS, shifts, units)
-    keys = [(y,) for y in YEARS]
-    cargs = {(y,): " " + P.zlist(shifts[y]) + " " + common.coq_list([P.COQ_IND[u] for u in units[y]]) for y in YEARS}
+    units = {y: (P.INDS if ctx.tier == "thorough" else ctx.rng.choice("DW") + ctx.rng.choice("MQSA")) for y in years}
+    year_rows, cal = P.sql_calendar_rows(years, shifts, units)
+    keys = [(y,) for y in years]
+    cargs = {(y,): " " + P.zlist(shifts[y]) + " " + common.coq_list([P.COQ_IND[u] for u in units[y]]) for y in years}
     fp = P.coq_fp("tie_calendar_fp", keys, cargs, "c08cal")
     bad_year, bad = [], []
     n_eval = 0
-    for y in YEARS:
+    for y in years:
         v = fp[(y,)]
         if v[:5] != year_rows[y]:
             bad_year.append((y, v[:5], year_rows[y]))
@@ -173,7 +159,7 @@ def x_calendar(ctx) -> None:
         if v[5] != P.fpz(flat):
             bad.append(y)
     ctx.count(None, n_eval)
-    ctx.oblige("X: is_leap / days_in_year / weeks_in_year / 1 January / Monday of ISO week 1 (Calendar.v) = DuckDB, every year 1900-2100",
+    ctx.oblige(f"X: is_leap / days_in_year / weeks_in_year / 1 January / Monday of ISO week 1 (Calendar.v) = DuckDB, {len(years)} years of 1900-2100",
                not bad_year, str(bad_year[:3]))
     detail = ""
     if bad:
@@ -185,7 +171,7 @@ def x_calendar(ctx) -> None:
     ndays = sum(len(v) for v in cal.values())
     ctx.oblige(f"X: YEAR/MONTH/DAY/DAYOFYEAR/ISOYEAR/WEEK/ISODOW/LAST_DAY/QUARTER, vtl_time_agg_date (6 targets), vtl_dateadd "
                f"({'6 units x 4 shifts' if ctx.tier == 'thorough' else '2 of the 6 units x 1 shift per year'}) "
-               f"= Calendar.v / Period.v on every date 1900-01-01..2100-12-31 ({ndays} dates)", not bad, f"{len(bad)} years differ: {detail}")
+               f"= Calendar.v / Period.v on every date of {len(years)} years of 1900-2100 ({ndays} dates)", not bad, f"{len(bad)} years differ: {detail}")
     ctx.cov["x_dates"] = ndays
     ctx.log(f"X: calendar builtins on {ndays} dates in {time.time() - t0:.1f}s")
 
@@ -225,10 +211,11 @@ class Case:
 
 
 def key_for(op: str, ind: str, predicted: bool) -> str:
-    shape = {"W": "crossing-53-week-year", "D": "crossing-leap-year"}.get(ind, "unexpected")
+    """fill_time_series on a range containing week 53 / day 366 is the open finding; timeshift was repaired (1bd5380): any failure is new"""
     if op == "fill_time_series":
         shape = {"W": "range-contains-week-53", "D": "range-contains-day-366"}.get(ind, "unexpected")
-    return f"{op}:{ind}:{shape}" + ("" if predicted else ":unpredicted")
+        return f"{op}:{ind}:{shape}" + ("" if predicted else ":unpredicted")
+    return f"{op}:{ind}:wrong-result"
 
 
 def mk_rows(series, rng, measure=True):
@@ -469,6 +456,10 @@ def check_agg_col(series, t, col):
 def k_datasets(ctx) -> None:
     t0 = time.time()
     cases = build_cases(ctx)
+    if ctx.tier == "quick":      # keep every timeshift / fill case, a random half of the others
+        keep = [c for c in cases if c.op.startswith("timeshift") or c.op == "fill_time_series"]
+        rest = [c for c in cases if c not in keep]
+        cases = keep + ctx.rng.sample(rest, len(rest) // 2)
     hist: Dict[str, int] = {}
     # corpus first
     corpus = []
@@ -527,9 +518,9 @@ def k_datasets(ctx) -> None:
 
 
 def k_witnesses(ctx) -> None:
-    """corpus first: the vm_compute witnesses of the *_refuted theorems (and past minimal failures) replayed through vtlengine.run;
-    each file names the stable key under which its failure is known — a witness that stops failing means the model is no longer
-    faithful (or the defect was repaired: then the `*_refuted` theorems and the corpus entry must go)"""
+    """corpus first: past minimal failures replayed through vtlengine.run.  "expect": "pass" = repaired in /repo (the witnesses of
+    C08_shift_before_fix_refuted): a failure is a regression and is reported under a key that is NOT a known finding;
+    "expect": "known" = still open (fill_time_series): reported under its known key, and if it stops failing the model is stale."""
     S = D.tp_structure()
     files = sorted((common.CORPUS / "C08").glob("*.json"))
     for f in files:
@@ -537,26 +528,26 @@ def k_witnesses(ctx) -> None:
         rows = [{"Id_1": 1, "Id_2": p, "Me_1": float(k + 1)} for k, p in enumerate(w["periods"])]
         res = D.run(w["script"], S, rows)
         ctx.count(("corpus", f.name))
+        rep = {"kind": "run", "script": w["script"], "structures": S, "rows": rows, "kwargs": {}}
         if not res["ok"]:
-            ctx.violation(f"{w['key']}:engine-error", f"corpus {f.name}: {w['script']} raised {res['err']}", {"kind": "run", "script": w["script"],
-                          "structures": S, "rows": rows, "kwargs": {}})
+            ctx.violation(f"{w['key']}:engine-error", f"corpus {f.name}: {w['script']} raised {res['err']}", rep)
             continue
         out = D.rows_of(res)[1]
-        ids = [(r[0], r[1]) for r in out]
         if w["op"] == "timeshift":
-            failing = len(set(ids)) != len(ids)
-            what = f"{w['script']} on {w['periods']} returns {[i[1] for i in ids]}: two datapoints with the same identifiers"
+            got = [r[1] for r in sorted(out, key=lambda r: D.num(r[2]))]
+            failing = got != w["want"]
+            what = f"{w['script']} on {w['periods']} returns {got}, the calendar gives {w['want']}"
         else:
-            got = {r[1]: D.num(r[2]) for r in out}
-            lost = [p for k, p in enumerate(w["periods"]) if got.get(p) != k + 1]
+            gotm = {r[1]: D.num(r[2]) for r in out}
+            lost = [p for k, p in enumerate(w["periods"]) if gotm.get(p) != k + 1]
             failing = bool(lost)
-            what = f"{w['script']} on {w['periods']} returns {sorted(got)}: input datapoints {lost} are missing from the result"
+            what = f"{w['script']} on {w['periods']} returns {sorted(gotm)}: input datapoints {lost} are missing from the result"
+        rep.update({"expected": w.get("want", "every input datapoint present, gap-free"), "observed": [list(r) for r in out]})
         if failing:
-            ctx.violation(w["key"], what + f" ({w.get('note', '')})", {"kind": "run", "script": w["script"], "structures": S, "rows": rows, "kwargs": {},
-                                                                      "expected": "distinct / complete result", "observed": [list(r) for r in out]})
-        else:
-            ctx.oblige(f"corpus witness {f.name} still fails on the engine (the macro-faithful model and its *_refuted theorems are current)", False,
-                       f"engine returned {ids}")
+            ctx.violation(w["key"], what + f" ({w.get('note', '')})", rep)
+        elif w.get("expect") == "known":
+            ctx.oblige(f"corpus case {f.name} still fails on the engine (next_impl and C08_macro_next_refuted are current)", False,
+                       f"engine now returns {sorted(r[1] for r in out)}: update the model, the theorem, findings.d and this corpus entry")
     ctx.cov["corpus_cases"] = len(files)
 
 
